@@ -907,7 +907,8 @@ class Gen:
         """constructs the UB checkers look at, correct by construction (guards hold on every path)"""
         r = self.rng
         k = r.choice(['guarded-div', 'nullable-ptr', 'checked-index', 'wrapped-index', 'outparam-init', 'loop-init',
-                      'memset-init', 'near-limit', 'local-address', 'ptr-walk'])
+                      'memset-init', 'near-limit', 'local-address', 'ptr-walk', 'flag-extract', 'flag-extract',
+                      'masked-shift-index'])
         self.feat('safe:' + k)
         c = self.cond(env)
         if k == 'guarded-div':
@@ -923,6 +924,32 @@ class Gen:
             self.emit(out, indent + 1, ['%s = ' % v, e, ';'])
             self.emit(out, indent, ['}'])
             env.add('scalar', v, 'long long')
+        elif k in ('flag-extract', 'masked-shift-index'):
+            # bit-field extraction through named constants: the field's lowest bit is forced on, so the extracted
+            # value is never 0 and the division / index below is well defined on every path
+            sh = r.randint(0, 12)
+            width = r.choice([1, 1, 2])
+            mask = ((1 << width) - 1) << sh
+            n = self.newvar('F')
+            st, w, v = self.newvar('st'), self.newvar('fw'), self.newvar('fv')
+            form = r.choice(['enum', 'const'])
+            if form == 'enum':
+                self.emit(out, indent, ['enum { MASK%s = 0x%x, SHIFT%s = %d };' % (n, mask, n, sh)])
+            else:
+                self.emit(out, indent, ['const unsigned int MASK%s = 0x%xu;' % (n, mask)])
+                self.emit(out, indent, ['const int SHIFT%s = %d;' % (n, sh)])
+            e = self.fit(self.expr(env, 1), 'long long') or self.smalllit()
+            self.emit(out, indent, ['unsigned int %s = ((unsigned int)(' % st, e, ') & 0xffffu) | 0x%xu;' % (1 << sh)])
+            self.emit(out, indent, ['unsigned int %s = (%s & MASK%s) >> SHIFT%s;' % (w, st, n, n)])
+            wv = N('var', w, pid=self.pid(), t='unsigned int')
+            if k == 'flag-extract':
+                self.emit(out, indent, ['unsigned int %s = ' % v, N('bin', '/', self.mk_lit(r.randint(10, 4096)), wv, pid=self.pid(), t='unsigned int'), ';'])
+            else:
+                a = self.newvar('fa')
+                self.emit(out, indent, ['int %s[3] = {%d, %d, %d};' % (a, r.randint(0, 9), r.randint(0, 9), r.randint(0, 9))])
+                self.emit(out, indent, ['unsigned int %s = (unsigned int)' % v,
+                                        N('idx', a, N('bin', '-', wv, self.mk_lit(1), pid=self.pid(), t='unsigned int'), pid=self.pid(), t='int'), ';'])
+            env.add('scalar', v, 'unsigned int')
         elif k == 'nullable-ptr':
             tv, p = self.newvar('t'), self.newvar('np')
             self.emit(out, indent, ['int %s = %d;' % (tv, r.randint(0, 9))])
